@@ -399,15 +399,33 @@ class Evaluator:
         return ("unknown", "const:" + str(k.get("dbg", k.get("ty")))[:80])
 
     def eval_promoted(self, pf):
-        """promoted bodies are `_1 = <const>; _0 = &_1`: return a ref to a pseudo place holding it."""
+        """promoted bodies are `_1 = <const>; _0 = &_1` (possibly through a const-fn call such as RangeInclusive::new):
+        return a ref to a pseudo place holding the value."""
         st = State()
         fid = -abs(hash(pf.id)) % (1 << 30) - 1
-        val = None
-        for s in pf.blocks[0]["s"]:
-            if "a" in s:
-                pl = Place(s["a"][0])
-                v = self.rvalue(st, fid, pf, s["a"][1])
-                self.write(st, self.resolve(st, fid, pf, pl), v)
+        bb = 0
+        for _ in range(4):
+            blk = pf.blocks[bb]
+            for s in blk["s"]:
+                if "a" in s:
+                    pl = Place(s["a"][0])
+                    v = self.rvalue(st, fid, pf, s["a"][1])
+                    self.write(st, self.resolve(st, fid, pf, pl), v)
+            t = blk["t"]
+            if "call" in t and t["target"] is not None:
+                name = callee_name(t["call"])
+                args = [self.operand(st, fid, pf, a) for a in t["args"]]
+                if name.endswith("RangeInclusive::<Idx>::new") and len(args) == 2:
+                    v = ("agg", "core::ops::range::RangeInclusive", "RangeInclusive", ("start", "end", "exhausted"), (args[0], args[1], ("int", 0)))
+                else:
+                    v = ("call", name, tuple(args), 0)
+                self.write(st, self.resolve(st, fid, pf, Place(t["dest"])), v)
+                bb = t["target"]
+                continue
+            if "goto" in t:
+                bb = t["goto"]
+                continue
+            break
         r = st.store.get(("local", fid, 0))
         if r is not None and r[0] == "ref":
             inner = self.read(st, r[1])
@@ -665,7 +683,7 @@ class Evaluator:
                     pt = self.resolve(st, frame, fn, pl)
                     self.write(st, pt, v)
                     if root_of(pt)[0] != "local" or root_of(pt)[1] != frame or self._escaped_local(st, pt):
-                        st.effects.append(("store", pt, v, s.get("sp", "")))
+                        st.effects.append(("store", pt, v, s.get("sp", ""), len(st.atoms)))
                 elif "setdiscr" in s:
                     pass
             t = blk["t"]
@@ -817,7 +835,7 @@ class Evaluator:
             if alts:
                 st.seq += 1
                 seq = st.seq
-                st.effects.append(("call", callee, tuple(args), sp, seq, tuple(c.get("closures", []))))
+                st.effects.append(("call", callee, tuple(args), sp, seq, tuple(c.get("closures", [])), len(st.atoms)))
                 self._havoc_call(st, cid, args, cf_for_adt=cf if any(a[0] == "closure_call" for a in alts) else None)
                 conts = []
                 for i, alt in enumerate(alts):
@@ -840,8 +858,14 @@ class Evaluator:
         st.seq += 1
         seq = st.seq
         res = ("call", callee, tuple(args), seq)
-        st.effects.append(("call", callee, tuple(args), sp, seq, tuple(c.get("closures", []))))
+        st.effects.append(("call", callee, tuple(args), sp, seq, tuple(c.get("closures", [])), len(st.atoms)))
         self._havoc_call(st, cid, args)
+        dl = t["dest"]
+        if not dl["p"]:
+            dty = fn.locals[dl["l"]]["ty"]
+            tr = ty_range(dty)
+            if not tr.is_all():
+                st.facts.constrain(res, tr)
         return finish_value(st, res)
 
     def _havoc_call(self, st, cid, args, cf_for_adt=None):
